@@ -38,6 +38,8 @@ func init() {
 			"binary.BigEndian.PutUint32(into[:HeaderLen], uint32(payloadLen))", "binary.BigEndian.PutUint32(into[:HeaderLen], uint32(payloadLen+HeaderLen))", "C19-R2"},
 		mutant{"no room reserved for a big payload", "codec/frame/frame.go",
 			"\t\tif err == sonicerrors.ErrNeedMore {\n\t\t\tsrc.Reserve(HeaderLen + int(payloadLen))\n\t\t}\n", "", "C19-R3"},
+		mutant{"room reserved only when the payload alone does not fit", "codec/frame/frame.go",
+			"\t\tif err == sonicerrors.ErrNeedMore {\n\t\t\tsrc.Reserve(HeaderLen + int(payloadLen))", "\t\tif err == sonicerrors.ErrNeedMore && src.Cap() < int(payloadLen) {\n\t\t\tsrc.Reserve(HeaderLen + int(payloadLen))", "C19-R3"},
 		mutant{"need-more decoded again without reading", "codec.go",
 			"\t\t_, err = c.src.ReadFrom(c.stream)\n\t\tif err != nil {\n\t\t\treturn c.emptyDec, err\n\t\t}", "\t\tif c.src.WriteLen() == 0 {\n\t\t\t_, err = c.src.ReadFrom(c.stream)\n\t\t\tif err != nil {\n\t\t\t\treturn c.emptyDec, err\n\t\t\t}\n\t\t}", "C19-R3"},
 		mutant{"partial async write accepted", "byte_buffer.go",
@@ -314,6 +316,25 @@ func runC19(c *Ctx) {
 				why = fmt.Sprintf("Encode must reserve HeaderLen+len(frame), write len(frame) as the prefix and claim HeaderLen+len(frame) (prefix=%v claim=%v reserved=%v)", prefix, ret, reserved)
 			}
 			c.check(okEnc, enc, "encoder", enc.Pos(), "prefix = len(frame), claim = HeaderLen+len(frame), reserved first", why)
+			// the Encoder contract (codec.go): the item must be committed, because the connection writes the read area of dst
+			committed := false
+			for _, cc := range callsToFn(enc, bb("Commit")) {
+				ls := additiveLeaves(cc.Common().Args[1])
+				k, other := int64(0), 0
+				for _, l := range ls {
+					if l.isK {
+						k += l.k
+					} else if lenOfParam(resolveCell(l.v), enc, 1) {
+						other++
+					} else {
+						other += 10
+					}
+				}
+				if k == headerLen && other == 1 {
+					committed = true
+				}
+			}
+			c.check(committed, enc, "encoder commits", enc.Pos(), "the encoded item is committed to the read area", "Encode leaves the encoded item in the write area of dst without committing it: CodecConn.WriteNext/AsyncWriteNext write the read area, so nothing of the item is sent (and it is sent later, glued to whatever is committed next)")
 		}
 	}
 
@@ -337,6 +358,30 @@ func runC19(c *Ctx) {
 					good = true
 				}
 			}
+		}
+		// ... on every path on which the payload was found incomplete
+		if good {
+			eachInstr(dec, func(in ssa.Instruction) {
+				ifi, ok := in.(*ssa.If)
+				if !ok {
+					return
+				}
+				cond, pos := normLit(ifi.Cond, true)
+				bo, ok := cond.(*ssa.BinOp)
+				if !ok || bo.Op != token.EQL || !(isLoadOfGlobal(bo.X, errNeedMore) || isLoadOfGlobal(bo.Y, errNeedMore)) {
+					return
+				}
+				succ := in.Block().Succs[0]
+				if !pos {
+					succ = in.Block().Succs[1]
+				}
+				okp, _ := mustPassAt(succ, 0, func(x ssa.Instruction) bool {
+					return isCallToFn(x, reserve) && leafSummary(additiveLeaves(x.(ssa.CallInstruction).Common().Args[1])) == fmt.Sprintf("%d+Uint32()", headerLen)
+				})
+				if !okp {
+					good = false
+				}
+			})
 		}
 		c.check(good, dec, "reserve for payload", dec.Pos(), "an incomplete payload reserves HeaderLen+len before asking for more", "when the payload is incomplete Decode does not reserve HeaderLen+len: a payload larger than the free capacity of the read buffer can never arrive and ReadNext spins on zero-byte reads")
 		// ReadNext: generic origin and instantiations
